@@ -92,19 +92,48 @@ Definition record_ok (r : list N) : bool :=
   | [_; _; _; _; s1; s2; s3; s4] => N.eqb s1 s2 && N.eqb s2 s3 && N.eqb s3 s4
   | _ => false
   end.
-(* every view seen is a view of exactly one polled configuration (index 0 = before the first fetch), one struct
-   copy is never a mixture, and a reader never goes back to an older snapshot *)
+(* the views are resolved to SETS of snapshots: row k of the match table says which polled configurations
+   (index 0 = before the first fetch) give the k-th view of the table.  Two polls may give the same view (a peer
+   that reads no chain in either), so a view does not name one snapshot. *)
+Definition match_rows {V IT} (cands : list V) (matches : V -> IT -> bool) (table : list IT) : list (list bool) :=
+  map (fun it => map (fun v => matches v it) cands) table.
+Fixpoint and_rows (a b : list bool) : list bool :=
+  match a, b with x :: a', y :: b' => (x && y) :: and_rows a' b' | _, _ => [] end.
+(* the least snapshot number >= cur that the row allows (the row's first position is number i) *)
+Fixpoint next_set (row : list bool) (i cur : N) : option N :=
+  match row with
+  | [] => None
+  | b :: r => if b && N.leb cur i then Some i else next_set r (N.succ i) cur
+  end.
+Fixpoint walk (evs : list (list bool)) (cur : N) : option N :=
+  match evs with
+  | [] => Some cur
+  | row :: r => match next_set row 0%N cur with Some s => walk r s | None => None end
+  end.
+(* a record's five reads: four getter results, then one struct copy whose four fields must be ONE snapshot *)
+Definition rec_events (rows : list (list bool)) (r : list N) : option (list (list bool)) :=
+  match all_some (map (fun k => nth_error rows (N.to_nat k)) r) with
+  | Some [ra; rb; rc; rd; r1; r2; r3; r4] => Some [ra; rb; rc; rd; and_rows (and_rows r1 r2) (and_rows r3 r4)]
+  | _ => None
+  end.
+(* forward pass along one reader: cur = the least snapshot number the reader can be at (choosing the least possible
+   snapshot at every read is optimal for "some non-decreasing choice exists") *)
+Fixpoint walk_recs (rows : list (list bool)) (recs : list (list N)) (cur : N) : bool :=
+  match recs with
+  | [] => true
+  | r :: rest =>
+      match rec_events rows r with
+      | Some evs => match walk evs cur with Some c => walk_recs rows rest c | None => false end
+      | None => false
+      end
+  end.
+(* every view seen is a view of some polled configuration, and every reader's records have a consistent reading:
+   each read resolved to a snapshot that gives the view read, one struct copy never a mixture, and the reader never
+   back at an older snapshot *)
 Definition conc_ok {V IT} (cands : list V) (matches : V -> IT -> bool) (o : list IT * list (list (list N))) : bool :=
   let '(table, readers) := o in
-  match all_some (map (fun it => find_idx (fun v => matches v it) cands 0%N) table) with
-  | None => false
-  | Some idx =>
-      forallb (fun recs =>
-        match all_some (map (fun r => all_some (map (fun k => nth_error idx (N.to_nat k)) r)) recs) with
-        | None => false
-        | Some irecs => forallb record_ok irecs && nondecreasing (concat irecs)
-        end) readers
-  end.
+  let rows := match_rows cands matches table in
+  forallb (existsb (fun b : bool => b)) rows && forallb (fun recs => walk_recs rows recs 0%N) readers.
 Definition hconc_ok (i : hconc_in) (o : hconc_out) : bool :=
   conc_ok (home_init :: map (fun es => home_derive (home_convert es)) i) hitem_matches o.
 Definition hconc_judge :=
